@@ -697,3 +697,4 @@ def creation(chk, repo):
              "covers minimum <= no < maximum: address 30000 fails the "
              "assertion in ParallelMailboxLock.__init__")
 EXPLANATION += (" Added after wave 9: ParallelMailboxLock is decided by abstract execution against a model of the lock file (its bytes, the record locks this process holds, a byte held by another process for some attempts): one byte at the terminal's offset is locked, read, written back and released; a second exchange of the same process keeps its byte; a lock sent to another process (__reduce__) addresses the same byte. The statement-level rules remain as a second opinion where the statements are recognised.")
+EXPLANATION += (' Added after wave 10: a lock copied through __getstate__/__setstate__ addresses the same byte; LockFile.__init__ by abstract execution (creator and joiner).')
